@@ -600,6 +600,14 @@ namespace Pistache::Http
             buffer.reset();
             cursor.reset();
 
+            // a message abandoned in the middle of its body (413, parse error)
+            // must not leave its body counters behind
+            for (auto& step : allSteps)
+            {
+                if (step)
+                    step->reset();
+            }
+
             currentStep = 0;
         }
 
